@@ -71,7 +71,8 @@ pub(crate) fn select_b(n: &BigInt) -> u64 {
     let lnx = n.bits() as f64 * 2.0f64.ln() / 2.0;
     let lnlnx = lnx.ln();
     let b = (lnx * lnlnx / 2.0).sqrt().exp(); // L(p)^{1/sqrt(2)}
-    b as u64
+    // Callers use 100 * b as B2, which must fit in u64.
+    (b as u64).min(u64::MAX / 100)
 }
 
 /// Configuration for ECM.
